@@ -190,7 +190,7 @@ def check_exit(ex: Exec, C: FnContract, env0, outcome, result: V, exc, res: FnRe
             if rc.origin is not None:
                 m = z3.And(m, z3.BoolVal(exc.origin.startswith(rc.origin)))
             matches.append(m)
-        ex.oblige('raises', 'only_declared', z3.Or(*matches) if matches else z3.BoolVal(False), ('raises',),
+        ex.oblige('raises', 'only_declared', z3.Or(*matches) if matches else z3.BoolVal(False), ('raises',) + C.raises_tags,
                   meta={'origin': exc.origin})
         for rc, m in zip(body_raises, matches):
             for cl in rc.ensures:
